@@ -441,7 +441,12 @@ def run(F, R):
                 diff = sorted("%s,%s -> %s (expected %s)" % (k[0], k[1], sorted(v), sorted(EXPECTED_T[k])) for k, v in T.items() if v != EXPECTED_T[k])
                 R.check("C18-R2", "fold-table", not diff, "; ".join(pretty), "the per-app install summary differs from the property's table: %s" % diff[:4])
     helper = [k for k in bykey.get(K["attempts"], []) if k["name"] == "get_int"]
-    if R.floor("C18-R2", "reader of the attempt counter", len(helper), 1):
+    spread = [k for k in bykey.get(K["attempts"], []) if k["name"] in ("remove_or_log", "remove", "set_int") and helper and k["bv"] is not helper[0]["bv"]]
+    if helper and spread:
+        # the read, the report, the removal and the increment are no longer in one function (e.g. split into helpers that
+        # take the locked storage): the dominance rules below are written for one body and do not apply to this shape
+        R.inconclusive("C18-R2", "counter-helper-shape", "the attempt counter is read in %s but written in %s: rule reads one function" % (helper[0]["bv"].name.split("::")[-2], sorted(set(k["bv"].name.split("::")[-2] for k in spread))))
+    elif R.floor("C18-R2", "reader of the attempt counter", len(helper), 1):
         hv = helper[0]["bv"]
         hcalls = [n for n in S.nodes if n.idx in S.live and n.ctx.bv is hv]
         hctx = set(n.ctx for n in hcalls)
